@@ -2,7 +2,6 @@ package rules
 
 import (
 	"go/ast"
-	"go/constant"
 	"go/token"
 	"go/types"
 	"sort"
@@ -13,8 +12,8 @@ import (
 const dsP = "emitter/doublesign."
 
 func init() {
-	register("C21", "other", "T8 DecisionTable (field coverage), T19 SaturatingArith, T4 GuardedBy (normalised comparisons), inlined view of helpers (parameter binding)",
-		"Decides the decision-table shape of the double-sign guard: no peers and unfinished P2P sync lead only to error returns; each of the five timestamps (last connected, P2P synced, became validator, external self-event created / detected) has a test since(t) < threshold that feeds the remaining time threshold - since(t) of the same timestamp, with a non-nil error, into the maximum keeper, and no emission is permitted on a path that neither recorded that wait nor saw the test fail. The test, the wait computation and the keeper update may live in SyncedToEmit itself or in helper functions / local closures it calls: the rule works on the inlined view (parameters and receivers of a helper are bound to the caller's argument expressions, single-definition locals are looked through), so the same facts are decided whether the five tests are written out or share one helper. The keeper replaces its value only by a larger wait and the function returns the keeper's wait and error; the remaining-time subtraction is saturating (since(t) is the saturating Time.Sub and can be the most negative duration for a far-future timestamp, so the plain difference wraps negative and emission would be permitted). Parallel-instance detection: created-before-startup leads only to false, otherwise the result is since(created) < threshold. Concrete time arithmetic beyond wrap-around is not decided.",
+	register("C21", "other", "T8 DecisionTable (field coverage; scenario evaluation of the parallel-instance truth table), T19 SaturatingArith (no-wrap edge facts), T4 GuardedBy (normalised comparisons, disjunctive edges), inlined view of helpers (parameter binding)",
+		"Decides the decision-table shape of the double-sign guard: no peers and unfinished P2P sync lead only to error returns; each of the five timestamps (last connected, P2P synced, became validator, external self-event created / detected) has a test since(t) < threshold that feeds the remaining time threshold - since(t) of the same timestamp, with a non-nil error, into the maximum keeper, and no emission is permitted on a path that neither recorded that wait nor saw the test fail. A row is the set of apply calls guarded by the test of one timestamp (the row is found by its guard, so the wait may be held in a re-assigned variable, be the cap constant, or be recorded by several applies, one per case). The test, the wait computation and the keeper update may live in SyncedToEmit itself or in helper functions / local closures it calls: the rule works on the inlined view (parameters and receivers of a helper are bound to the caller's argument expressions, single-definition locals are looked through), so the same facts are decided whether the five tests are written out or share one helper. The keeper replaces its value only by a larger wait and the function returns the keeper's wait and error. The remaining-time subtraction is saturating: since(t) is the saturating Time.Sub and is very negative for a far-future timestamp, so the plain difference wraps negative and emission would be permitted; wherever a value reaching apply is the plain difference threshold - since, every path from the subtraction to that use takes an edge that excludes wrap-around (since >= c with c >= 0, difference >= threshold, or difference >= c with c >= 0, whichever alternative of a disjunctive edge holds), any other value reaching it is the constant MaxInt64 or zero; a test of the saturated value alone (since == MinInt64) does not qualify, because differences just below saturation wrap too. Parallel-instance detection is decided by scenario evaluation: DetectParallelInstance (with predicate helpers / closures inlined, locals looked through) is evaluated in three-valued logic under each truth assignment to the two tests Created.Before(Startup) and since(Created) < threshold; a condition the scenario does not decide is followed both ways, and every return reachable in a scenario yields exactly !before && recent (so an additional early exit, or a differently spelled age test, is reported with the offending return and the condition it was reached over). Concrete time arithmetic beyond wrap-around is not decided.",
 		[]string{"time.Time.Sub saturates at the minimum/maximum Duration (time package contract)", "threshold is positive"},
 		runC21)
 }
@@ -370,97 +369,8 @@ func runC21(c *core.Ctx) {
 			r, ok := pt.Node().(*ast.ReturnStmt)
 			return ok && !errRet(r)
 		}
-		covered := map[string]bool{}
-		var keeper *types.Var
-		keeperOK := true
-		for _, ap := range applies {
-			c.Need(len(ap.CS.Call.Args) == 2, "apply(wait, err)")
-			frames, pts := ap.chain()
-			leaf := frames[len(frames)-1]
-			// which stamp does the wait argument talk about?
-			stamps := view.stampsIn(ap.Fr, ap.CS.Call.Args[0])
-			if len(stamps) != 1 {
-				c.Undecided("apply site without a recognisable timestamp", "T8 DecisionTable", ap.CS.Pos(), "cannot tell which single timestamp this wait is computed from (found: "+joinStr(stamps)+")")
-				continue
-			}
-			stamp := stamps[0]
-			// only when: in some frame of the chain the way to the apply is guarded by since(stamp) < threshold
-			jg := -1
-			var wit []core.Point
-			for j := len(frames) - 1; j >= 0; j-- {
-				ok, w := frames[j].F.GuardedBy(pts[j], view.recent(frames[j], stamp))
-				if ok {
-					jg = j
-					break
-				}
-				if j == len(frames)-1 {
-					wit = w
-				}
-			}
-			c.Check(jg >= 0, stamp+"|wait recorded exactly when since < threshold", "T4 GuardedBy", ap.CS.Pos(), "apply is reached only on the since("+stamp+") < threshold edge of the same timestamp", "the wait for "+stamp+" is recorded under a different test: "+leaf.F.DescribePath(wit))
-			if jg >= 0 {
-				g := frames[jg].F
-				// and always on that edge: the test's true edge always reaches this apply
-				okAlways := true
-				for _, e := range edgesWithFact(g, view.recent(frames[jg], stamp)) {
-					if _, miss := (core.PathQuery{F: g, From: blockEntry(e.B.Succs[e.Succ]), Avoid: core.PointSet(pts[jg]), TargetExit: true}).Find(); miss {
-						okAlways = false
-					}
-				}
-				for j := jg + 1; j < len(frames); j++ {
-					if _, miss := (core.PathQuery{F: frames[j].F, From: frames[j].F.Entry(), Avoid: core.PointSet(pts[j]), TargetExit: true}).Find(); miss {
-						okAlways = false
-					}
-				}
-				c.Check(okAlways, stamp+"|too-recent timestamp always records a wait", "T3 PostDominates", ap.CS.Pos(), "the since < threshold edge always reaches apply", "a too-recent "+stamp+" can be ignored")
-				// and the test is made before emission is permitted: no accepting path skips both the apply and the
-				// since >= threshold edge
-				okTested := true
-				var witT []core.Point
-				var witF *core.FuncInfo
-				for j := 0; j <= jg; j++ {
-					q := core.PathQuery{F: frames[j].F, From: frames[j].F.Entry(), Avoid: core.PointSet(pts[j])}
-					if j == jg {
-						q.AvoidEdge = c19Edges(frames[j].F, view.notRecent(frames[j], stamp))
-					}
-					if j == 0 {
-						q.Target = accepting
-					} else {
-						q.TargetExit = true
-					}
-					if path, found := q.Find(); found {
-						okTested, witT, witF = false, path, frames[j].F
-					}
-				}
-				detail := ""
-				if witF != nil {
-					detail = witF.DescribePath(witT)
-				}
-				c.Check(okTested, stamp+"|tested before emission is permitted", "T8 DecisionTable", ap.CS.Pos(), "every path to the permitting return records the wait for "+stamp+" or takes the since("+stamp+") >= threshold edge", "SyncedToEmit can return its result (permit emission, or report a wait that is not the longest) on a path that never compared since("+stamp+") with the threshold: "+detail)
-			}
-			// error argument: a package-level error variable (non-nil)
-			efr, ee := c21Resolve(ap.Fr, ap.CS.Call.Args[1])
-			ev, _ := efr.F.ObjOf(ee).(*types.Var)
-			okE := ev != nil && ev.Pkg() != nil && ev.Parent() == ev.Pkg().Scope()
-			c.Check(okE, stamp+"|refusal carries an error", "T8 DecisionTable", ap.CS.Pos(), "apply receives a package-level error value", "the wait is recorded without an error (emission would be permitted)")
-			checkSaturating(c, ap, stamp)
-			covered[stamp] = true
-			// the keeper all waits go into
-			kfr, ke := c21Resolve(ap.Fr, ap.CS.Recv())
-			kv := varOf(kfr.F, ke)
-			if kv == nil || !c19Within(f.Body, kv.Pos()) || (keeper != nil && keeper != kv) {
-				keeperOK = false
-			}
-			keeper = kv
-		}
-		var missing []string
-		for _, s := range c21Stamps {
-			if !covered[s] {
-				missing = append(missing, s)
-			}
-		}
-		sort.Strings(missing)
-		c.Check(len(missing) == 0, "all five timestamps are tested", "T8 field coverage", f.Pos(), "LastConnected, P2PSynced, BecameValidator, ExternalSelfEventCreated, ExternalSelfEventDetected each have a test", "timestamps without a since < threshold test: "+joinStr(missing))
+		// the rows of the table, one per timestamp (c21_table.go)
+		keeper, keeperOK := c21StampRows(c, f, view, applies, accepting)
 
 		// result: the keeper's fields
 		okRet := keeper != nil && keeperOK
@@ -517,103 +427,8 @@ func runC21(c *core.Ctx) {
 		c.ExpectAtLeast("keeper field updates", n, 2)
 	})
 
-	c.Clause("C21.parallel", func() {
-		f := c.Fn(dsP + "DetectParallelInstance")
-		threshold := f.Param(1)
-		// created before startup => false. The test is Created.Before(Startup) or, equivalently,
-		// Startup.After(Created); it may be a branch condition or a conjunct of the returned expression.
-		isField := func(e ast.Expr, name string) bool {
-			_, p := fieldPath(f, e)
-			return len(p) == 1 && p[0] == dsP+"SyncStatus."+name
-		}
-		// notBefore: the fact says "created is not before startup"
-		notBefore := func(ft core.Fact) bool {
-			if ft.Truth {
-				return false
-			}
-			call := isCallTo(f, ft.Expr, "time.Time.Before", "time.Time.After")
-			if call == nil || len(call.Args) != 1 {
-				return false
-			}
-			sel, ok := ast.Unparen(call.Fun).(*ast.SelectorExpr)
-			if !ok {
-				return false
-			}
-			if sel.Sel.Name == "Before" {
-				return isField(sel.X, "ExternalSelfEventCreated") && isField(call.Args[0], "Startup")
-			}
-			return isField(sel.X, "Startup") && isField(call.Args[0], "ExternalSelfEventCreated")
-		}
-		isConstBool := func(e ast.Expr, want bool) bool {
-			cv, ok := core.ConstVal(f.Info(), e)
-			return ok && cv.Kind() == constant.Bool && constant.BoolVal(cv) == want
-		}
-		// every return that can yield true is reached only over a not-before edge, or has not-before as a conjunct
-		ok, nMaybeTrue := true, 0
-		for _, rp := range f.ReturnPoints() {
-			r := rp.Node().(*ast.ReturnStmt)
-			if len(r.Results) != 1 {
-				ok = false
-				continue
-			}
-			if isConstBool(r.Results[0], false) {
-				continue
-			}
-			nMaybeTrue++
-			protected, _ := f.GuardedBy(rp, notBefore)
-			for _, ft := range core.Decompose(resolveLocal(f, r.Results[0]), true) {
-				if notBefore(ft) {
-					protected = true
-				}
-			}
-			if !protected {
-				ok = false
-			}
-		}
-		c.Check(ok && nMaybeTrue >= 1, "event created before startup is not a parallel instance", "T8 DecisionTable", f.Pos(), "a result other than false is produced only when Created.Before(Startup) is false", "a self-event older than startup can be reported as a parallel instance")
-		// otherwise: since(created) < threshold
-		namer := func(e ast.Expr) string {
-			if call := isCallTo(f, e, dsP+"SyncStatus.Since"); call != nil {
-				_, path := fieldPath(f, call.Args[0])
-				if len(path) == 1 {
-					return "since." + short(path[0])
-				}
-			}
-			if varOf(f, e) == threshold {
-				return "threshold"
-			}
-			return ""
-		}
-		want := core.ParseLinCmp("since.SyncStatus.ExternalSelfEventCreated - threshold + 1 <= 0")
-		okR := false
-		for _, rp := range f.ReturnPoints() {
-			r := rp.Node().(*ast.ReturnStmt)
-			if len(r.Results) == 1 && !isConstBool(r.Results[0], false) && !isConstBool(r.Results[0], true) {
-				// the returned expression is the comparison, possibly conjoined with the not-before test
-				nRecent, nOther := 0, 0
-				for _, ft := range core.Decompose(resolveLocal(f, r.Results[0]), true) {
-					if lc, k := core.NormLinCmp(f.Info(), core.Fact{Expr: resolveLocal(f, ft.Expr), Truth: ft.Truth}, namer); k && lc.Equal(want) {
-						nRecent++
-					} else if !notBefore(ft) {
-						nOther++
-					}
-				}
-				if nRecent >= 1 && nOther == 0 {
-					okR = true
-				}
-			}
-		}
-		// or branch form: return true guarded by the comparison
-		for _, rp := range returnsWith(f, 0, func(e ast.Expr) bool { return isIdentNamed(e, "true") }) {
-			if o, _ := f.GuardedBy(rp, func(ft core.Fact) bool {
-				lc, k := core.NormLinCmp(f.Info(), ft, namer)
-				return k && lc.Equal(want)
-			}); o {
-				okR = true
-			}
-		}
-		c.Check(okR, "parallel instance iff the external event is younger than the threshold", "T8 DecisionTable", f.Pos(), "the remaining result is since(ExternalSelfEventCreated) < threshold", "the parallel-instance test is not since(created) < threshold")
-	})
+	// truth table of DetectParallelInstance, by scenario evaluation (c21_parallel.go)
+	c.Clause("C21.parallel", func() { c21ParallelClause(c) })
 }
 
 func joinStr(xs []string) string {
@@ -625,71 +440,4 @@ func joinStr(xs []string) string {
 		out += x
 	}
 	return out
-}
-
-// checkSaturating is T19 for one apply site: the wait argument must not be a plain difference
-// threshold - since(t); it has to go through a wrap check that substitutes the maximum duration.
-func checkSaturating(c *core.Ctx, ap c21Apply, stamp string) {
-	fr, arg := c21Resolve(ap.Fr, ap.CS.Call.Args[0])
-	f := fr.F
-	construct := stamp + "|remaining time saturates"
-	isMaxDur := func(g *core.FuncInfo, e ast.Expr) bool {
-		v, ok := core.ConstVal(g.Info(), e)
-		if !ok {
-			return false
-		}
-		v = constant.ToInt(v)
-		return v.Kind() == constant.Int && constant.Compare(v, token.EQL, constant.MakeInt64(1<<63-1))
-	}
-	// analyse a function/closure body g where `sub` is a subtraction: is there a substitution of the max duration,
-	// guarded by a condition, on a path between the subtraction and the use?
-	hasWrapCheck := func(g *core.FuncInfo) bool {
-		found := false
-		// return MaxInt64 under a guard
-		for _, rp := range g.ReturnPoints() {
-			r := rp.Node().(*ast.ReturnStmt)
-			for _, res := range r.Results {
-				if isMaxDur(g, res) {
-					if ok, _ := g.GuardedBy(rp, func(ft core.Fact) bool { _, k := core.NormCmp(ft); return k }); ok {
-						found = true
-					}
-				}
-			}
-		}
-		// x = MaxInt64 under a guard
-		for _, a := range assignments(g) {
-			if a.RHS != nil && isMaxDur(g, a.RHS) {
-				if ok, _ := g.GuardedBy(a.Pt, func(ft core.Fact) bool { _, k := core.NormCmp(ft); return k }); ok {
-					found = true
-				}
-			}
-		}
-		return found
-	}
-	switch x := arg.(type) {
-	case *ast.BinaryExpr:
-		if x.Op == token.SUB {
-			c.Fail(construct, "T19 SaturatingArith", ap.CS.Pos(), "the wait is the plain difference threshold - since("+stamp+"): since() saturates at the most negative duration for a far-future timestamp, the difference wraps to a negative value, the maximum keeper ignores it and emission is permitted although the timestamp is not threshold in the past")
-			return
-		}
-	case *ast.CallExpr:
-		if fn, ok := f.ObjOf(x.Fun).(*types.Func); ok {
-			if g := f.P.FuncOf(fn); g != nil {
-				if hasWrapCheck(g) {
-					c.Pass(construct, "T19 SaturatingArith", "the wait is computed by "+short(g.Name)+", which substitutes the maximum duration when the subtraction wraps")
-				} else {
-					c.Fail(construct, "T19 SaturatingArith", ap.CS.Pos(), short(g.Name)+" computes the wait without a wrap check that substitutes the maximum duration")
-				}
-				return
-			}
-		}
-	case *ast.Ident:
-		if hasWrapCheck(f) {
-			c.Pass(construct, "T19 SaturatingArith", "the wait variable is replaced by the maximum duration under a wrap check")
-			return
-		}
-		c.Fail(construct, "T19 SaturatingArith", ap.CS.Pos(), "the wait variable is never replaced by the maximum duration: the subtraction can wrap for a far-future timestamp")
-		return
-	}
-	c.Undecided(construct, "T19 SaturatingArith", ap.CS.Pos(), "the wait argument has a form the rule cannot classify: "+exprStr(arg))
 }
